@@ -12,7 +12,7 @@ pre   = - | <op>;<op>…         operations on the original before `clone(trace=
 ops   = - | <side><op>;…       side = o | c
 op    = s:<v>:<period>:<x,x,…> | d:<v>:<period|*> | k:<v>:<period> | a:<v>:<period> | t:<0|1> | h:<v>
 period = eternity | <unit>/<y>,<m>,<d>/<size>
-step  = <result>;O<obs>;C<obs>       result = ok | ERR | <x,x,…>
+step  = <result>;O<obs>;C<obs>       result = ok | ERR | <x,x,…> | 0 (the empty sum of calculate_add)
 ```
 The alias graph lists, for every reference field of the original and of the clone, the canonical
 name of the object it designates (objects are named by the first path that reaches them, the
